@@ -297,6 +297,14 @@ class Heap:
             cur = np.ascontiguousarray(np.asarray(e["arr"])).tobytes()
             if cur != e["snap"]:
                 bad.append((name, "content"))
+            elif e["storage"] in ("C", "F", "view", "subclass", "memmap_rw") and not np.asarray(e["arr"]).flags.writeable:
+                # the caller's own buffer was locked (setflags(write=False)): the caller can no
+                # longer refill it - a modification of the caller's array object
+                bad.append((name, "made read-only"))
+                try:
+                    e["arr"].setflags(write=True)
+                except Exception:  # noqa: BLE001
+                    pass
             elif e["buf"] is not None and e["buf"].tobytes() != e["bufsnap"]:
                 bad.append((name, "canary"))
         return bad
